@@ -70,14 +70,18 @@ def run_audit(verbose=False):
     th = theorems()
     names = sorted({n for v in th.values() for n in v["theorems"]})
     src = "import PymoodeProofs\n" + "".join("#print axioms %s\n" % n for n in names)
-    path = os.path.join(LEAN, "_audit_tmp.lean")
+    tmpname = "_audit_tmp_%d.lean" % os.getpid()
+    path = os.path.join(LEAN, tmpname)
     open(path, "w").write(src)
     try:
-        p = subprocess.run(["lake", "env", "lean", "_audit_tmp.lean"], cwd=LEAN, stdout=subprocess.PIPE,
+        p = subprocess.run(["lake", "env", "lean", tmpname], cwd=LEAN, stdout=subprocess.PIPE,
                            stderr=subprocess.STDOUT)
         out = p.stdout.decode()
     finally:
-        os.remove(path)
+        try:
+            os.remove(path)
+        except OSError:
+            pass
     # parse: "'Name' depends on axioms: [a, b]" or "'Name' does not depend on any axioms"
     out1 = re.sub(r"\s+", " ", out)
     for n in names:
@@ -107,9 +111,26 @@ def cached_audit(force=False):
                 return a
         except Exception:
             pass
-    a = run_audit()
+    # checks may run side by side: one of them builds and audits, the others wait for it and read its result
+    import fcntl
     os.makedirs(os.path.dirname(cache), exist_ok=True)
-    json.dump(a, open(cache, "w"), indent=1)
+    with open(os.path.join(LEAN, ".lake", "audit.lock"), "w") as lk:
+        fcntl.flock(lk, fcntl.LOCK_EX)
+        try:
+            if not force and os.path.exists(cache) and os.path.exists(exe):
+                try:
+                    a = json.load(open(cache))
+                    if a.get("hash") == h and a.get("build_ok"):
+                        a["cached"] = True
+                        return a
+                except Exception:
+                    pass
+            a = run_audit()
+            tmp = cache + ".%d.tmp" % os.getpid()
+            json.dump(a, open(tmp, "w"), indent=1)
+            os.replace(tmp, cache)
+        finally:
+            fcntl.flock(lk, fcntl.LOCK_UN)
     a["cached"] = False
     return a
 
